@@ -136,9 +136,92 @@ def one_item(plan, item):
     return ev
 
 
+HOMES = {'S_SYNC': 'func', 'S_BRG': 'bridge', 'O_TFR': 'op', 'O_DBATTR': 'derived'}
+
+
+def real_homes(m):
+    out = []
+    for kind in ('S_SYNC', 'S_BRG', 'O_TFR', 'O_DBATTR'):
+        for k, inst in enumerate(m.select_many(kind)):
+            if (inst.Action_Semantics_internal or '').strip():
+                out.append((kind, k, inst))
+    return out
+
+
+def _implicit(x, consts=()):
+    """the words bridge / transform in front of NS::name(...) and the name of the constant specification in front of a
+    constant are optional: the bodies of real models leave them out, the generator writes them; for these bodies the
+    invocation kinds they select and the qualifier of a constant are not compared"""
+    if isinstance(x, dict):
+        if x.get('t') == 'icall' and x.get('kind') in ('bridge', 'class'):
+            x = dict(x, kind='implicit')
+        if x.get('t') == 'enum' and x.get('n') in consts:
+            return {'t': 'var', 'n': x['n']}
+        return {k: _implicit(v, consts) for k, v in x.items()}
+    if isinstance(x, list):
+        return [_implicit(v, consts) for v in x]
+    return x
+
+
+def real_items(plan, item):
+    """every action body of a real model (its text is item['model']): the tree the body parses to is what prebuilding
+    and generating text must give back; -> one event per body"""
+    def load():
+        loader = bp.fresh_loader()
+        loader.input(item['model'])
+        return loader.build_metamodel()
+    events = []
+    try:
+        n = len(real_homes(load()))
+    except Exception as e:
+        return [{'src': [], 'toks': [], 'notoks': True, 'err': 'cannot load the model: %s: %s' % (type(e).__name__, e), 'errkind': 'PY',
+                 'real': [], 'tokpos': [], 'nodes': [], 'text': '', 'home': 'func', 'gen': '', 'idem': 'skip', 'consistent': 'skip',
+                 'facts': {}, 'strict': 'no', 'casediff': []}]
+    for j in range(n):
+        ev = {'src': [], 'toks': [], 'notoks': True, 'err': '', 'errkind': '', 'real': [], 'tokpos': [], 'nodes': [], 'text': '',
+              'home': 'func', 'gen': '', 'idem': 'skip', 'consistent': 'skip', 'facts': {}, 'strict': 'no', 'casediff': []}
+        try:
+            with limit(60.0):
+                m = load()
+                kind, k, inst = real_homes(m)[j]
+                ev['home'] = HOMES[kind]
+                text = inst.Action_Semantics_internal
+                ev['text'] = text
+                consts = set(c.Name for c in m.select_many('CNST_SYC'))
+                ev['src'] = _implicit(oaladapter.convert(oal.parse(text), text)[0], consts)
+                before = xtuml.check_association_integrity(m) + xtuml.check_uniqueness_constraint(m)
+                prebuild.prebuild_action(inst)
+                after = xtuml.check_association_integrity(m) + xtuml.check_uniqueness_constraint(m)
+                ev['consistent'] = 'yes' if after <= before else 'no'
+                gen = sourcegen.gen_text_action(inst)
+                ev['gen'] = gen
+                ev['real'] = _implicit(oaladapter.convert(oal.parse(gen), gen)[0], consts)
+                m2 = load()
+                inst2 = real_homes(m2)[j][2]
+                inst2.Action_Semantics_internal = gen
+                prebuild.prebuild_action(inst2)
+                ev['idem'] = 'yes' if sourcegen.gen_text_action(inst2) == gen else 'no'
+        except CallTimeout:
+            ev['err'] = ev['errkind'] = 'Timeout'
+        except oal.ParseException as e:
+            ev['err'] = 'ParseException: %s' % e
+            ev['errkind'] = 'ParseException'
+        except Exception as e:
+            ev['err'] = '%s: %s' % (type(e).__name__, e)
+            ev['errkind'] = 'PY:' + type(e).__name__
+        events.append(ev)
+    return events
+
+
 def main(plan_path, out_path):
     plan = json.load(open(plan_path))
-    json.dump([[one_item(plan, it) for it in r['items']] for r in plan['runs']], open(out_path, 'w'))
+    out = []
+    for r in plan['runs']:
+        evs = []
+        for it in r['items']:
+            evs += real_items(plan, it) if 'model' in it else [one_item(plan, it)]
+        out.append(evs)
+    json.dump(out, open(out_path, 'w'))
 
 
 if __name__ == '__main__':
